@@ -76,77 +76,9 @@ func c15(c *core.Ctx, r *core.Report) {
 	r.Explanation = "C15 configuration sources: (R1) the loader loop ranges forward over the sorted loaders, leaves early only with a non-nil error, and hands every non-empty result to Binder.SetConfig; (R2) every Binder.SetConfig implementation merges (viper.MergeConfig) and never replaces (ReadConfig); (R3) the adding options (app.SetConfig, app.AddConfigLoader) reach Configure.AddLoaders and never SetLoaders, SetLoaders has no other in-scope caller than the documented replacer and the default constructor; (R4) AddLoaders appends to the loader field that the loader loop sorts and ranges; (R5) loader classes: FileLoader is priority-ordered with constant Order 0, raw/args loaders are unordered; (R6) the default configuration installs the command-line loader and a binder; (R7) the command-line loader maps exactly the --app.config=key=value arguments to key -> parsed value (decision table over concrete argument lists); (R8) file and raw loaders hand back exactly what they were given. Decides order and non-loss of sources; viper's deep merge of keys is trusted."
 	r.Assumptions = []string{"viper.MergeConfig deep-merges and later values win", "yaml/properties encoders are faithful"}
 
-	// ---- R1 loader loop
+	// ---- R1 loader loop: decision table of every Configure implementation's Initialize (see R4 for the field)
 	sites := c.CallSites(func(com *ssa.CallCommon) bool { return core.IsInvoke(com, ro.LoaderLoad) })
-	if r.Exactly("C15.R1", "invoke sites of Loader.LoadConfig", len(sites), 1) {
-		site := sites[0]
-		fn := site.Parent()
-		cons := "LoadConfig@" + core.FnName(fn)
-		call, isCall := site.(*ssa.Call)
-		rl := core.RangeLoopOf(fn, site.Block())
-		if !isCall || rl == nil {
-			r.Fail("C15.R1", cons, c.Pos(site.Pos()), "loader is not invoked synchronously inside a forward range")
-		} else {
-			u := core.ClassifyErr(call)
-			r.Check(u.Class == core.ErrTested || u.Class == core.ErrReturned, "C15.R1", cons+":error", c.Pos(site.Pos()), "a loader error leaves the loop with a non-nil error ("+string(u.Class)+" "+u.Detail+")")
-			// exits from inside the loop other than through the header must be error returns
-			badExit := ""
-			for b := range rl.Loop.Blocks {
-				if b == rl.Header {
-					continue
-				}
-				for _, s := range b.Succs {
-					if rl.Loop.Blocks[s] {
-						continue
-					}
-					for blk := range core.ReachableFrom(s, map[*ssa.BasicBlock]bool{rl.Done: true}) {
-						if len(blk.Instrs) == 0 {
-							continue
-						}
-						if ret, ok := blk.Instrs[len(blk.Instrs)-1].(*ssa.Return); ok && core.ClassifyReturn(ret) != core.RetError {
-							badExit = c.Pos(ret.Pos())
-						}
-					}
-					if core.ReachableFrom(s, nil)[rl.Done] && s != rl.Done {
-						badExit = c.Pos(s.Instrs[0].Pos())
-					}
-				}
-			}
-			r.Check(badExit == "", "C15.R1", cons+":no-early-success-exit", c.Pos(site.Pos()), "the loader loop is left before its end only with a non-nil error "+badExit)
-			// SetConfig gets the loader result
-			var sets []ssa.CallInstruction
-			for _, ci := range core.Calls(fn) {
-				if core.IsInvoke(ci.Common(), ro.BinderSetConfig) {
-					sets = append(sets, ci)
-				}
-			}
-			if r.Exactly("C15.R1", "Binder.SetConfig sites in the loader loop function", len(sets), 1) {
-				set := sets[0]
-				res0 := core.ResultValue(call, 0)
-				argOK := len(set.Common().Args) == 1 && res0 != nil && core.Norm(set.Common().Args[0]) == res0
-				r.Check(argOK && rl.Loop.Blocks[set.Block()], "C15.R1", cons+":bind-result", c.Pos(set.Pos()), "Binder.SetConfig receives exactly the bytes returned by the loader of the same iteration")
-				// control dependence: only loop header, nil-error test of LoadConfig, len(config) != 0
-				okDeps := true
-				why := ""
-				for _, cd := range c.ControlDeps(set.Block()) {
-					if cd.If.Block() == rl.Header || set.Block().Dominates(cd.If.Block()) {
-						continue // the loop condition, or a later test that only matters through the back edge
-					}
-					if isNilTestOf(cd, core.ErrValue(call), true) {
-						continue
-					}
-					if isLenNonZeroTest(cd, res0) {
-						continue
-					}
-					okDeps = false
-					why = "extra condition at " + c.Pos(cd.If.Cond.Pos())
-				}
-				r.Check(okDeps, "C15.R1", cons+":bind-unconditional", c.Pos(set.Pos()), "binding a loader's output depends only on the loader having succeeded and the output being non-empty "+why)
-				us := core.ClassifyErr(set.(*ssa.Call))
-				r.Check(us.Class == core.ErrTested || us.Class == core.ErrReturned, "C15.R1", cons+":bind-error", c.Pos(set.Pos()), "a binder error becomes a non-nil return ("+string(us.Class)+")")
-			}
-		}
-	}
+	r.Exactly("C15.R1", "invoke sites of Loader.LoadConfig", len(sites), 1)
 
 	// ---- R2 binder implementations merge
 	bimpls := c.Implementors(c.Iface("configure", "Binder"))
@@ -274,18 +206,30 @@ func c15(c *core.Ctx, r *core.Report) {
 			}
 		}
 		r.Check(okAppend && len(add.Blocks) == 1, "C15.R4", cons, c.FnPos(add), "AddLoaders stores append(<the loader field>, <all given loaders>...) unconditionally")
-		if okAppend && len(sites) == 1 {
-			// the loader loop ranges over that very field
-			rl := core.RangeLoopOf(sites[0].Parent(), sites[0].Block())
-			same := false
-			if rl != nil {
-				v := core.Norm(rl.Slice)
-				if fa, ok := core.IsFieldLoad(v, fld.Owner, fld.Name); ok {
-					_ = fa
-					same = true
+		if okAppend {
+			initFn := c.DeclaredMethod(T, "Initialize")
+			if initFn == nil {
+				r.Undecided("C15.R1", "load-table@"+T.Obj().Name(), c.FnPos(add), "the Configure implementation declares no Initialize method")
+			} else {
+				maxLen := 2
+				if r.Tier == "thorough" {
+					maxLen = 3
+				}
+				lrs, lruns, lund := loadTable(c, initFn, fld.Name, maxLen)
+				r.Count("load_table_runs", lruns)
+				lcons := "load-table@" + core.FnName(initFn)
+				if lund != "" {
+					r.Undecided("C15.R1", lcons, c.FnPos(initFn), "abstract interpretation left the model: "+lund)
+				} else {
+					smallModelCheck(c, r, "C15.R1", lcons, initFn, int64(maxLen))
+					lrs.report(c, r, initFn, func(row string) string {
+						if row == "order" {
+							return "C15.R4"
+						}
+						return "C15.R1"
+					}, lcons, loadRows)
 				}
 			}
-			r.Check(same, "C15.R4", cons+":same-field", c.FnPos(add), "the loader loop ranges over the field AddLoaders appends to")
 		}
 	}
 	r.Floor("C15.R4", "Configure implementations declaring AddLoaders", nc, 1)
